@@ -349,6 +349,14 @@ func ResetGlobals() int {
 	return len(resetFuncs)
 }
 
+var hooks = map[string]func(any) any{}
+
+// RegisterHook publishes a read-only accessor from an injected export file.
+func RegisterHook(name string, f func(any) any) { hooks[name] = f }
+
+// Hook returns a registered accessor (nil when the export file is absent).
+func Hook(name string) func(any) any { return hooks[name] }
+
 // GoStmt replaces a `go` statement (rule R3).
 func GoStmt(f func()) {
 	s := Active()
